@@ -24,6 +24,10 @@ use crate::seqrun::{fresh_dir, remove_dir};
 use crate::sim::{Disk, FileNode, Sim};
 
 pub const STEP_BUDGET: u64 = 30_000;
+/// locks created by one `Index::load`, in creation order: state (RwLock), wal, pending_intents,
+/// inflight_blobs. Only used to *name* locks in the evidence and for the targeted strategy's hot
+/// list; a change in the number of locks shifts the labels, never a verdict.
+const LOCKS_PER_INDEX: usize = 4;
 pub const DEFAULT: u32 = u32::MAX;
 
 thread_local! {
@@ -86,7 +90,7 @@ fn lock_observer(op: parking_lot::LockOp, _kind: parking_lot::LockKind, id: usiz
         parking_lot::LockOp::Acquired => {
             HELD.with(|h| h.borrow_mut().entry(t).or_default().push(id));
             // the three index locks are created in the order state=0, wal=1, intents=2
-            if id % 3 == 2 {
+            if id % LOCKS_PER_INDEX == 2 {
                 HOT.with(|c| c.set(true));
             }
         }
@@ -925,7 +929,7 @@ fn run_case_k<K: SimKey>(case: &Case) -> Outcome {
 }
 
 fn lock_name(id: usize) -> String {
-    format!("{}#{}", ["state", "wal", "intents"][id % 3], id / 3)
+    format!("{}#{}", ["state", "wal", "intents", "inflight"][id % LOCKS_PER_INDEX], id / LOCKS_PER_INDEX)
 }
 
 fn one_execution<K: SimKey>(case: &Arc<Case>, spec: &Arc<ConcSpec>, pre: &Arc<PreState>, results: &Arc<StdMutex<ProgResults>>, sched: &Arc<StdMutex<SchedShared>>, tables: &Arc<Tables<K>>) {
